@@ -3,7 +3,9 @@ package main
 // Field-write (effect) analysis: which heap arrays a function may write, transitively.
 
 import (
+	"fmt"
 	"go/types"
+	"os"
 	"sort"
 	"strings"
 
@@ -26,8 +28,27 @@ type effIndex struct {
 var effIdx = &effIndex{direct: map[*ssa.Function]*directEff{}, addrTaken: map[string][]*ssa.Function{}}
 
 func sigKey(s *types.Signature) string {
-	// ignore receiver
-	return types.TypeString(types.NewSignatureType(nil, nil, nil, s.Params(), s.Results(), s.Variadic()), nil)
+	// parameter and result types only (no names, no receiver)
+	var b strings.Builder
+	b.WriteString("func(")
+	for i := 0; i < s.Params().Len(); i++ {
+		if i > 0 {
+			b.WriteString(",")
+		}
+		b.WriteString(types.TypeString(s.Params().At(i).Type(), nil))
+	}
+	if s.Variadic() {
+		b.WriteString("...")
+	}
+	b.WriteString(")(")
+	for i := 0; i < s.Results().Len(); i++ {
+		if i > 0 {
+			b.WriteString(",")
+		}
+		b.WriteString(types.TypeString(s.Results().At(i).Type(), nil))
+	}
+	b.WriteString(")")
+	return b.String()
 }
 
 func (v *Verifier) buildAddrTaken() {
@@ -94,12 +115,54 @@ func isLocalFresh(v ssa.Value) bool {
 		return true
 	case *ssa.IndexAddr:
 		// element of a slice made in this function
-		switch s := x.X.(type) {
-		case *ssa.MakeSlice:
+		return freshSlice(x.X, map[ssa.Value]bool{})
+	}
+	return false
+}
+
+// freshSlice: the backing array of this slice value was allocated in this function (so writing its
+// elements is invisible to the caller until the slice is returned or stored).
+func freshSlice(v ssa.Value, seen map[ssa.Value]bool) bool {
+	if seen[v] {
+		return true
+	}
+	seen[v] = true
+	switch x := v.(type) {
+	case *ssa.MakeSlice:
+		return true
+	case *ssa.Const:
+		return x.Value == nil
+	case *ssa.Slice:
+		if _, ok := x.X.(*ssa.Alloc); ok {
 			return true
-		case *ssa.Slice:
-			if _, ok := s.X.(*ssa.Alloc); ok {
-				return true
+		}
+		if _, ok := x.X.Type().Underlying().(*types.Slice); ok {
+			return freshSlice(x.X, seen)
+		}
+	case *ssa.Phi:
+		for _, e := range x.Edges {
+			if !freshSlice(e, seen) {
+				return false
+			}
+		}
+		return true
+	case *ssa.Convert:
+		_, ok := x.Type().Underlying().(*types.Slice)
+		return ok
+	case *ssa.Call:
+		if bi, ok := x.Call.Value.(*ssa.Builtin); ok && bi.Name() == "append" {
+			return freshSlice(x.Call.Args[0], seen)
+		}
+		// standard-library functions that return newly allocated slices
+		if callee := x.Call.StaticCallee(); callee != nil {
+			if p := pkgOf(callee); p != nil {
+				switch p.Path() {
+				case "strings", "strconv", "bytes", "regexp", "unicode/utf16":
+					return true
+				case "slices":
+					n := callee.Name()
+					return strings.HasPrefix(n, "Clone") || strings.HasPrefix(n, "Collect") || strings.HasPrefix(n, "Sorted") || strings.HasPrefix(n, "Concat")
+				}
 			}
 		}
 	}
@@ -434,6 +497,9 @@ func (v *Verifier) Effects(fv *FuncVC, fn *ssa.Function) ([]string, bool) {
 		}
 		for k := range d.keys {
 			acc[k] = true
+			if w := os.Getenv("GOCV_WHO"); w != "" && k == w {
+				fmt.Fprintf(os.Stderr, "[who] %s written directly by %s (reached from %s)\n", k, f, fn)
+			}
 		}
 		stack = append(stack, d.callees...)
 	}
@@ -558,11 +624,21 @@ func (fv *FuncVC) loopWriteSet(fr *Frame, li *loopInfo) ([]string, bool) {
 // callWriteSet over-approximates what executing a call instruction may write (including what
 // inlining it would allocate).
 func (fv *FuncVC) callWriteSet(fr *Frame, x ssa.CallInstruction) ([]string, bool) {
+	return fv.callWriteSetX(fr, x, true)
+}
+
+func (fv *FuncVC) callWriteSetX(fr *Frame, x ssa.CallInstruction, withAllocs bool) ([]string, bool) {
 	cc := x.Common()
 	acc := map[string]bool{}
 	all := false
 	addFn := func(fn *ssa.Function) {
-		ks, a := fv.v.EffectsWithAllocs(fv, fn)
+		var ks []string
+		var a bool
+		if withAllocs {
+			ks, a = fv.v.EffectsWithAllocs(fv, fn)
+		} else {
+			ks, a = fv.v.Effects(fv, fn)
+		}
 		for _, k := range ks {
 			acc[k] = true
 		}
@@ -571,6 +647,9 @@ func (fv *FuncVC) callWriteSet(fr *Frame, x ssa.CallInstruction) ([]string, bool
 	if bi, ok := cc.Value.(*ssa.Builtin); ok {
 		switch bi.Name() {
 		case "append":
+			if !withAllocs {
+				break
+			}
 			if sl, ok := cc.Args[0].Type().Underlying().(*types.Slice); ok {
 				for _, hk := range fv.m.ElemKeys(sl.Elem()) {
 					acc[hk.Key] = true
@@ -871,4 +950,112 @@ func (v *Verifier) BodyEffects(fv *FuncVC, fn *ssa.Function) ([]string, bool) {
 // maps whose element/key types are module types, ghost state).
 func isModuleKey(k string) bool {
 	return strings.Contains(k, "github.com.nyaruka.goflow") || strings.HasPrefix(k, "G$")
+}
+
+// loopGeneralWrites: keys whose writes in the loop may hit objects that existed before the loop
+// (everything else in the loop's write set only concerns objects allocated inside the loop, so
+// pre-existing objects keep their contents: an automatic frame invariant).
+func (fv *FuncVC) loopGeneralWrites(fr *Frame, li *loopInfo) (map[string]bool, bool) {
+	acc := map[string]bool{}
+	all := false
+	add := func(ks []HeapKey) {
+		for _, k := range ks {
+			acc[k.Key] = true
+		}
+	}
+	freshInLoop := func(addr ssa.Value) bool {
+		r := rootOfAddr(addr)
+		switch x := r.(type) {
+		case *ssa.Alloc:
+			return li.blocks[x.Block()]
+		case *ssa.IndexAddr:
+			return freshSliceIn(x.X, li, map[ssa.Value]bool{})
+		}
+		return false
+	}
+	for b := range li.blocks {
+		for _, in := range b.Instrs {
+			switch x := in.(type) {
+			case *ssa.Store:
+				if freshInLoop(x.Addr) {
+					continue
+				}
+				switch a := x.Addr.(type) {
+				case *ssa.FieldAddr:
+					structT := a.X.Type().Underlying().(*types.Pointer).Elem()
+					ft := structT.Underlying().(*types.Struct).Field(a.Field).Type()
+					if isStructLike(ft) {
+						for _, k := range fv.allKeysOfType(ft, map[types.Type]bool{}) {
+							acc[k] = true
+						}
+					} else {
+						add(fv.m.FieldKeys(structT, a.Field))
+					}
+				case *ssa.IndexAddr:
+					switch t := a.X.Type().Underlying().(type) {
+					case *types.Slice:
+						add(fv.m.ElemKeys(t.Elem()))
+					case *types.Pointer:
+						add(fv.m.ElemKeys(t.Elem().Underlying().(*types.Array).Elem()))
+					}
+				default:
+					pt := x.Addr.Type().Underlying().(*types.Pointer).Elem()
+					for _, k := range fv.allKeysOfType(pt, map[types.Type]bool{}) {
+						acc[k] = true
+					}
+				}
+			case *ssa.MapUpdate:
+				if mm, ok := x.Map.(*ssa.MakeMap); ok && li.blocks[mm.Block()] {
+					continue
+				}
+				mt := x.Map.Type().Underlying().(*types.Map)
+				add([]HeapKey{fv.m.MapDomKey(mt)})
+				add(fv.m.MapValKeys(mt))
+			case ssa.CallInstruction:
+				ks, a := fv.callWriteSetX(fr, x, false)
+				for _, k := range ks {
+					acc[k] = true
+				}
+				all = all || a
+				// copy() writes the destination
+				if bi, ok := x.Common().Value.(*ssa.Builtin); ok && bi.Name() == "copy" {
+					if sl, ok := x.Common().Args[0].Type().Underlying().(*types.Slice); ok {
+						add(fv.m.ElemKeys(sl.Elem()))
+					}
+				}
+			}
+		}
+	}
+	return acc, all
+}
+
+func freshSliceIn(v ssa.Value, li *loopInfo, seen map[ssa.Value]bool) bool {
+	if seen[v] {
+		return true
+	}
+	seen[v] = true
+	switch x := v.(type) {
+	case *ssa.MakeSlice:
+		return li.blocks[x.Block()]
+	case *ssa.Slice:
+		if a, ok := x.X.(*ssa.Alloc); ok {
+			return li.blocks[a.Block()]
+		}
+		if _, ok := x.X.Type().Underlying().(*types.Slice); ok {
+			return freshSliceIn(x.X, li, seen)
+		}
+	case *ssa.Call:
+		if bi, ok := x.Call.Value.(*ssa.Builtin); ok && bi.Name() == "append" {
+			// the model allocates a new backing array on every append (A2)
+			return li.blocks[x.Block()]
+		}
+		if freshSlice(v, map[ssa.Value]bool{}) {
+			return li.blocks[x.Block()]
+		}
+	case *ssa.Convert:
+		if _, ok := x.Type().Underlying().(*types.Slice); ok {
+			return li.blocks[x.Block()]
+		}
+	}
+	return false
 }
